@@ -159,29 +159,165 @@ theorem attr_line_reparse (builtin : List Char) (optws : List (List Char)) (name
   rw [e] at h
   exact h
 
-/-- `listing_reparse`, `name=value` words (`alias`, `typeset -p`, `export -p`, `readonly -p`, `set`) —
-    PARTIAL.  Proved: the printed word `quote name ++ "=" ++ quote value` lexes as ONE word whose units are
-    those of the name, an unquoted `=`, those of the value, and quote removal gives `name=value`.
-    Full statement (NOT proved, and false for `alias`, see `alias_cross_bracket_witness`):
-      `readBack (quote n ++ '=' :: quote v) = some [n ++ '=' :: v]`
-    Missing: that no tilde / pattern trigger arises ACROSS the two separately quoted parts.  For a
-    declaration utility the word is expanded in `Single` mode (`fieldOfDecl`: no pathname expansion), for
-    `alias` it is not, and name `[`, value `]` prints as the pattern `[=]`. -/
-theorem listing_assignment_word_partial (n v : List Char) :
-    lex (.word []) (quote n ++ '=' :: quote v) = some [unitsOf n ++ WUnit.lit '=' :: unitsOf v]
-    ∧ removeQuotes (unitsOf n ++ WUnit.lit '=' :: unitsOf v) = n ++ '=' :: v := by
-  constructor
-  · rw [lex_quote_append n [] _]
-    rw [lex_word_plain _ '=' _ not_special_eq (Or.inl (by decide))]
-    have := lex_quote_append v (WUnit.lit '=' :: ((unitsOf n).reverse ++ [])) []
-    simp only [List.append_nil] at this ⊢
-    rw [this, lex_word_nil]
-    simp
-  · rw [removeQuotes_append]
-    show removeQuotes (unitsOf n) ++ removeQuotes (WUnit.lit '=' :: unitsOf v) = _
-    have : removeQuotes (WUnit.lit '=' :: unitsOf v) = '=' :: removeQuotes (unitsOf v) := by
-      simp [removeQuotes, WUnit.chars]
-    rw [this, removeQuotes_unitsOf, removeQuotes_unitsOf]
+/-- ★ `listing_reparse`, `name=value` words read as ordinary arguments (`alias`): FULL statement, with the
+    exact side condition.  For all names and values, unless the printed word is a cross-bracket pattern
+    (`crossBracket`: name and value both printed bare, `[` in the name, `]` in the value), the word
+    `quote n ++ "=" ++ quote v` reads back as exactly the one field `n=v`: no tilde or pattern trigger
+    arises across the two separately quoted halves. -/
+theorem alias_entry_reparse (n v : List Char) (h : crossBracket n v = false) :
+    readBack (quote n ++ '=' :: quote v) = some [n ++ '=' :: v] := by
+  simp [readBack, lex_assign, fieldOf_assign n v h]
+
+/-- … and the side condition is exact: in the cross-bracket case the printed word is NOT read back
+    verbatim (it is a pathname-expansion pattern) — the known finding, for every such name/value. -/
+theorem alias_entry_cross_bracket (n v : List Char) (h : crossBracket n v = true) :
+    readBack (quote n ++ '=' :: quote v) = none := by
+  unfold crossBracket at h
+  simp only [Bool.and_eq_true] at h
+  have ho : hasLitOpen (unitsOf n) = true := by rw [hasLitOpen_unitsOf, h.1.1, h.1.2]; rfl
+  have hc : hasLitClose (WUnit.lit '=' :: unitsOf v) = true := by
+    rw [(eq_value_facts v).2.2.2, hasLitClose_unitsOf, h.2.1, h.2.2]; rfl
+  have hb := bracketTriggered_append_true _ _ ho hc
+  simp [readBack, lex_assign, fieldOf, globTriggered, hb]
+
+/-- ★ `listing_reparse`, `name=value` words as arguments of a declaration utility (`typeset -p`,
+    `export -p`, `readonly -p`; the same reading applies to the assignments printed by `set`): the FULL
+    statement, no side condition — for ALL names and values the printed word reads back as the one field
+    `n=v` (a bare name puts the word in `Single` mode: no pathname expansion, tilde looked for after `=`
+    and colons; a quoted name hides its `[`). -/
+theorem decl_entry_reparse (n v : List Char) :
+    readBackDecl (quote n ++ '=' :: quote v) = some [n ++ '=' :: v] := by
+  have hf : fieldOfDecl (unitsOf n ++ WUnit.lit '=' :: unitsOf v) = some (n ++ '=' :: v) := by
+    rcases shapes n with ⟨hn, _, hu⟩ | ⟨hn, _, _, hu⟩ | ⟨hn, _, hu⟩
+    · have hb := bare_of_not_needs hn
+      have hne : '=' ∉ n := by
+        intro h
+        simp only [strNeedsQuoting, Bool.or_eq_false_iff] at hn
+        have := List.any_eq_false.mp hn.1.1.2 '=' h
+        simp [eq_needs_quoting] at this
+      have hav : assignValue (unitsOf n ++ WUnit.lit '=' :: unitsOf v) false = some (unitsOf v) := by
+        rw [hu]; exact assignValue_lits n _ false (Or.inr hb.nonempty) hne
+      have htf : tildeFront (unitsOf n ++ WUnit.lit '=' :: unitsOf v) = false := by
+        rw [hu]
+        cases n with
+        | nil => exact absurd rfl hb.nonempty
+        | cons c cs =>
+          have hc : c ≠ '~' := by
+            intro h
+            have hm : c ∈ Generated.QuoteTables.firstCharArms := first_arms c (by simp [h])
+            have := hb.first
+            simp [firstCharNeeds] at this
+            exact this hm
+          simp [tildeFront, hc]
+      have hrq : removeQuotes (unitsOf n ++ WUnit.lit '=' :: unitsOf v) = n ++ '=' :: v := by
+        rw [removeQuotes_append]
+        have : removeQuotes (WUnit.lit '=' :: unitsOf v) = '=' :: removeQuotes (unitsOf v) := by
+          simp [removeQuotes, WUnit.chars]
+        rw [this, removeQuotes_unitsOf, removeQuotes_unitsOf]
+      simp [fieldOfDecl, hav, htf, (triggers_unitsOf v).1, hrq]
+    · have hx : crossBracket n v = false := by simp [crossBracket, hn]
+      have hav : assignValue (unitsOf n ++ WUnit.lit '=' :: unitsOf v) false = none := by
+        rw [hu]; simp [assignValue]
+      simp only [fieldOfDecl, hav]
+      exact fieldOf_assign n v hx
+    · have hx : crossBracket n v = false := by simp [crossBracket, hn]
+      have hav : assignValue (unitsOf n ++ WUnit.lit '=' :: unitsOf v) false = none := by
+        rw [hu]; simp [assignValue]
+      simp only [fieldOfDecl, hav]
+      exact fieldOf_assign n v hx
+  simp [readBackDecl, lex_assign, hf]
+
+/-- ★ `listing_reparse`, `alias`: every entry printed by `alias`, given back as `alias -- <entry>`, reads
+    as the words that recreate the alias — unless it is a cross-bracket pattern. -/
+theorem alias_listing_reparse (n v : List Char) (h : crossBracket n v = false) :
+    readBack ("alias -- ".toList ++ Listing.dropNl (Listing.printAlias (n, v)))
+      = some ["alias".toList, "--".toList, n ++ '=' :: v] := by
+  have e : Listing.printAlias (n, v) = (quote n ++ '=' :: quote v) ++ ['\n'] := by
+    simp [Listing.printAlias]
+  have hp : "alias -- ".toList = prefixSp ["alias".toList, "--".toList] := by decide
+  have hq : ∀ w ∈ ["alias".toList, "--".toList], quote w = w := by decide
+  rw [e, dropNl_append_nl, hp, readBack_prefix _ hq, alias_entry_reparse n v h]
+  rfl
+
+/-- option words `typeset -p` prints before the name -/
+def typesetOptWords (v : Listing.Var) : List (List Char) :=
+  (if v.readonly then ["-r".toList] else []) ++ (if v.exported then ["-x".toList] else [])
+    ++ (if v.name.head? = some '-' then ["--".toList] else [])
+
+/-- ★ `listing_reparse`, `typeset -p` scalar lines: for every variable with a scalar value (any name
+    without `=`, any value, any attributes) the printed line is `typeset ` + arguments + newline, and the
+    arguments read back (declaration-utility reading) as the option words followed by `name=value`. -/
+theorem typeset_scalar_listing_reparse (v : Listing.Var) (s : List Char)
+    (hv : v.value = .scalar s) (hn : v.name.contains '=' = false) :
+    ∃ args, Listing.printVar "typeset" Listing.typesetOpts false v = "typeset ".toList ++ args ++ ['\n']
+      ∧ readBackDecl args = some (typesetOptWords v ++ [v.name ++ '=' :: s]) := by
+  refine ⟨prefixSp (typesetOptWords v) ++ (quote v.name ++ '=' :: quote s), ?_, ?_⟩
+  · have hpre : Listing.typesetOpts v ++ Listing.sepOf v.name = prefixSp (typesetOptWords v) := by
+      have h1 : "-r ".toList = "-r".toList ++ [' '] := by decide
+      have h2 : "-x ".toList = "-x".toList ++ [' '] := by decide
+      have h3 : "-- ".toList = "--".toList ++ [' '] := by decide
+      unfold Listing.typesetOpts Listing.sepOf typesetOptWords
+      rw [h1, h2, h3]
+      cases v.readonly <;> cases v.exported <;> by_cases hh : v.name.head? = some '-' <;>
+        simp [hh, prefixSp]
+    have h4 : "typeset ".toList = "typeset".toList ++ [' '] := by decide
+    unfold Listing.printVar
+    simp only [hn, Bool.false_eq_true, if_false, hv]
+    rw [h4, ← hpre]
+    simp only [List.append_assoc, List.cons_append, List.nil_append]
+  · have hq : ∀ w ∈ typesetOptWords v, quote w = w := by
+      have h1 : quote "-r".toList = "-r".toList := by decide
+      have h2 : quote "-x".toList = "-x".toList := by decide
+      have h3 : quote "--".toList = "--".toList := by decide
+      unfold typesetOptWords
+      intro w hw
+      simp only [List.mem_append] at hw
+      rcases hw with (hw | hw) | hw
+      · split at hw <;> simp at hw; rw [hw]; exact h1
+      · split at hw <;> simp at hw; rw [hw]; exact h2
+      · split at hw <;> simp at hw; rw [hw]; exact h3
+    rw [readBackDecl_prefix _ hq, decl_entry_reparse]
+    rfl
+
+/-- every option name of the table extracted from yash-env/src/option.rs is printed bare by the quoter -/
+theorem option_names_bare : ∀ o ∈ Generated.OptionTable.options, quote o.1 = o.1 := by decide
+
+/-- ★ `listing_reparse`, `set +o`: for every option of the extracted table and either state, the line
+    printed for a modifiable option reads back as `set -o <name>` / `set +o <name>`. -/
+theorem seto_line_reparse (o : List Char × Bool × Bool) (ho : o ∈ Generated.OptionTable.options) (on : Bool) :
+    readBack (Listing.dropNl (Listing.printOpt o.1 true on))
+      = some ["set".toList, [if on then '-' else '+', 'o'], o.1] := by
+  have hq := option_names_bare o ho
+  have h := quote_args_roundtrip ["set".toList, [if on then '-' else '+', 'o'], o.1]
+  have h1 : quote "set".toList = "set".toList := by decide
+  have h2 : quote [if on then '-' else '+', 'o'] = [if on then '-' else '+', 'o'] := by
+    cases on <;> decide
+  have h3 : "set ".toList = "set".toList ++ [' '] := by decide
+  have h4 : "o ".toList = ['o', ' '] := by decide
+  have e : Listing.printOpt o.1 true on
+      = joinSp (["set".toList, [if on then '-' else '+', 'o'], o.1].map quote) ++ ['\n'] := by
+    unfold Listing.printOpt
+    simp only [List.map_cons, List.map_nil, joinSp, h1, h2, hq, if_true]
+    rw [h3, h4]
+    simp only [List.append_assoc, List.cons_append, List.nil_append]
+  rw [e, dropNl_append_nl]
+  exact h
+
+/-- ★ … and the line of a non-modifiable option (`#set ±o <name>`) is a comment: it contributes no
+    command when the listing is evaluated. -/
+theorem seto_comment_line (name : List Char) (on : Bool) :
+    readBack (Listing.dropNl (Listing.printOpt name false on)) = none := by
+  have e : Listing.printOpt name false on
+      = ('#' :: ("set ".toList ++ [if on then '-' else '+'] ++ "o ".toList ++ name)) ++ ['\n'] := by
+    simp [Listing.printOpt]
+  rw [e, dropNl_append_nl]
+  have : lex (.word []) ('#' :: ("set ".toList ++ [if on then '-' else '+'] ++ "o ".toList ++ name)) = none := by
+    conv => lhs; rw [lex.eq_def]
+    have hb : isBlank '#' = false := by decide
+    have ho : isOperatorChar '#' = false := by decide
+    simp [hb, ho]
+  rw [readBack, this]
+  rfl
 
 /-- evaluates `readBack` on concrete text by the unfolding equations (`lex` is defined by well-founded
     recursion, so `decide` cannot run it) -/
